@@ -400,6 +400,9 @@ pub fn run_case(cache: &KeyCache, c: &Case) -> Outcome {
     let (real, snap) = run_real(&keys, &inst, 0);
     let snap = snap.unwrap_or_else(|| inst.run().expect("instance builds"));
     let verdict = m1::decide(&keys.2, &snap);
+    // the fast pre-processed form used by the gadget checks must agree
+    let fast = m1::Model::new(&keys.2).decide(&snap);
+    assert!(fast == verdict, "m1::Model::decide disagrees with m1::decide: {:?} vs {:?}", fast, verdict);
     Outcome { name: c.name.clone(), verdict, real, lay_key: c.lay.key(), desc: describe(&c.lay, &c.asg) }
 }
 
